@@ -1,6 +1,8 @@
 # /verif build entry points (everything offline, from files on disk)
-.PHONY: setup coq clean
-setup: coq
+.PHONY: setup gen coq clean
+setup: gen coq
+gen:
+	./harness/gen
 coq:
 	cd coq && coq_makefile -f _CoqProject -o Makefile && timeout 3000 $(MAKE) -j16
 clean:
